@@ -206,6 +206,7 @@ package vanguard
 //@ axiom errFinalDataAlreadyWritten != nil
 //@ axiom context.Canceled != nil
 //@ axiom errNotFound != nil
+//@ axiom io.EOF != nil && io.ErrUnexpectedEOF != nil && !errIs(io.ErrUnexpectedEOF, io.EOF)
 
 //@ func (*responseWriter).flushHeaders
 //@   dispatch (io.Writer).Write: none
@@ -352,6 +353,7 @@ package vanguard
 //@ pred ownMsg(m) = m.buf != nil ==> owned(m.buf)
 //@ pred prepOK(op) = (op.clientReqNeedsPrep || op.clientRespNeedsPrep ==> op.clientPreparer != nil) && (op.serverReqNeedsPrep || op.serverRespNeedsPrep ==> op.serverPreparer != nil)
 //@ |  && op.writer != nil && (typeIs(op.writer, *responseWriter) ==> validRW(unbox(op.writer, *responseWriter)))
+//@ |  && (op.clientReqNeedsPrep ==> op.clientEnveloper == nil)
 //@ |  && (op.clientPreparer != nil ==> tagOf(op.clientPreparer) == tagOf(op.client.protocol)) && (op.serverPreparer != nil ==> tagOf(op.serverPreparer) == tagOf(op.server.protocol))
 //@ |  && (op.clientEnveloper != nil ==> tagOf(op.clientEnveloper) == tagOf(op.client.protocol)) && (op.serverEnveloper != nil ==> tagOf(op.serverEnveloper) == tagOf(op.server.protocol))
 
@@ -401,6 +403,7 @@ package vanguard
 //@   atcall[C01] (*message).advanceToStage: (arg(2) == 2 && rec == 1 && m.stage == 1) || (arg(2) == 3 && rec == 2 && m.stage == 2)
 //@   ensures[C01,C09] old(m.stage) == 0 || old(m.stage) > newStage ==> err != nil
 //@   ensures[C01] err == nil ==> m.stage == newStage
+//@   ensures[C01] old(m.stage) == newStage && newStage != 0 ==> err == nil && m.buf == old(m.buf)
 //@   ensures[C09] err != nil ==> m.stage >= old(m.stage) && (m.stage < 3 || old(m.stage) == 3)
 //@   ensures[C01] old(m.stage) == 1 && newStage == 3 && m.sameCodec && (!m.wasCompressed || m.sameCompression) ==> err == nil && dec + comp + decd + enc + rec == 0 && m.buf == old(m.buf)
 //@   ensures[C01] old(m.stage) == 1 && newStage == 3 && m.sameCodec && m.wasCompressed && !m.sameCompression && err == nil ==> dec == 1 && comp == 1 && decd + enc + rec == 0
@@ -472,7 +475,7 @@ package vanguard
 //@ func (*transformingWriter).Close
 //@   requires twRest(w)
 //@   step rwStep(w.rw)
-//@   ensures[C09] old(w.expectingBytes) >= 0 && old(w.buffer) != nil && old(blen(w.buffer)) > 0 ==> w.rw.endWritten
+//@   ensures[C09] old(w.expectingBytes) >= 0 && old(w.buffer) != nil && !(old(w.writingEnvelope) && old(blen(w.buffer)) == 0) ==> w.rw.endWritten
 //@   ensures[C09] w.err != nil && w.buffer == nil
 //@   ensures rwInv(w.rw) && w.rw == old(w.rw)
 
@@ -587,6 +590,8 @@ package vanguard
 //@   ensures[C09] err == nil && o.clientEnveloper == nil && o.contentLen >= 0 ==> blen(msg.buf) <= o.contentLen
 //@   ensures[C09] err != nil ==> msg.stage == 0 || msg.stage == old(msg.stage)
 //@   ensures msg.isRequest || err != nil && msg.buf == old(msg.buf)
+//@   ensures (old(validMsg(msg)) ==> validMsg(msg)) && (o.clientEnveloper == nil ==> msg.buf != nil)
+//@   ensures rw != nil && msg.buf != nil && (old(msg.buf) != nil ==> old(msg.buf) != old(rw.buf)) ==> msg.buf != rw.buf
 //@   ensures[C14] ownMsg(msg)
 //@   ensures rw != nil ==> rwInv(rw) && rwStep(rw)
 //@   modifies msg.stage, msg.size, msg.isRequest, msg.wasCompressed, msg.buf, owned(msg.buf), blen(msg.buf), owned(rw.buf), blen(rw.buf), #RWEND
@@ -611,5 +616,49 @@ package vanguard
 //@   step rwStep(r.rw)
 //@   atcall[C08] (io.Reader).Read: r.envRemain == 0
 //@   ensures[C08] 0 <= n && n <= len(data)
+//@   ensures[C08,C01] n > 0 ==> !errIs(err, io.EOF)
 //@   ensures[C08] old(r.err) == nil && old(r.envRemain) > 0 ==> n >= min(len(data), old(r.envRemain)) && r.envRemain == old(r.envRemain) - min(len(data), old(r.envRemain))
 //@   ensures validER(r) && r.rw == old(r.rw)
+
+//@ func (*envelopingReader).Close
+//@   requires validER(r)
+//@   step rwStep(r.rw)
+//@   ensures r.err != nil && !r.mustReleaseCurrent
+
+//@ pred validTR(r) = r != nil && rwInv(r.rw) && prepOK(r.rw.op) && validMsg(r.msg) && readerOK(r.r) && 0 <= r.envRemain && r.envRemain <= 5
+//@ |  && (r.envRemain > 0 ==> r.rw.op.serverEnveloper != nil) && (r.msg.buf != nil ==> r.msg.buf != r.rw.buf)
+
+//@ func (*transformingReader).prepareMessage
+//@   opt conv
+//@   requires validTR(r)
+//@   requires[C14] ownMsg(r.msg)
+//@   step rwStep(r.rw)
+//@   ensures validTR(r) && r.rw == old(r.rw) && r.consumedFirst
+//@   ensures[C01] err == nil ==> r.msg.stage == 3 && r.buffer == r.msg.buf && r.buffer != nil
+//@   ensures[C10,C02] err == nil && r.rw.op.serverEnveloper != nil ==> r.envRemain == 5 && be32(r.env) == blen(r.buffer) && blen(r.buffer) <= limitOf(r.rw.op)
+//@   ensures[C02] err == nil && r.rw.op.serverEnveloper != nil ==> r.env[0] == ite(r.msg.wasCompressed && r.rw.op.server.reqCompression != nil, 1, 0)
+//@   ensures[C02] err == nil && r.rw.op.serverEnveloper == nil ==> r.envRemain == 0
+//@   ensures[C14] ownMsg(r.msg)
+
+//@ func (*transformingReader).Read
+//@   dispatch (io.Reader).Read: none
+//@   requires validTR(r) && (r.buffer != nil ==> r.buffer != r.rw.buf)
+//@   requires[C14] ownMsg(r.msg)
+//@   step rwStep(r.rw)
+//@   track reads = (*operation).readRequestMessage
+//@   track preps = (*transformingReader).prepareMessage
+//@   atcall[C09] (*transformingReader).prepareMessage: r.msg.stage == 1
+//@   atcall[C08] (*bytes.Buffer).Read: r.envRemain == 0
+//@   ensures[C08] 0 <= n && n <= len(data)
+//@   ensures[C08,C01] n > 0 ==> err == nil
+//@   ensures[C09] old(r.err) != nil ==> err != nil && n == 0 && reads == 0 && preps == 0
+//@   ensures[C09] r.err != nil && old(r.err) == nil ==> err != nil
+//@   ensures[C16] r.rw.op.serverEnveloper != nil ==> reads <= 1
+//@   ensures validTR(r) && r.rw == old(r.rw)
+//@   ensures[C14] ownMsg(r.msg)
+//@   loop 1 invariant n == 0 && validTR(r) && r.err == nil && r.rw == old(r.rw) && rwStep(r.rw) && (r.buffer != nil ==> r.buffer != r.rw.buf) && ownMsg(r.msg)
+//@   loop 1 invariant[C16] reads <= 1 && preps <= reads && (reads == 1 && r.rw.op.serverEnveloper != nil ==> r.envRemain == 5)
+
+//@ func (*transformingReader).Close
+//@   requires validTR(r)
+//@   ensures r.err != nil
